@@ -5,6 +5,15 @@ ROOT = os.path.dirname(os.path.dirname(os.path.abspath(__file__)))
 props = [json.loads(l) for l in open(os.path.join(ROOT, "properties.jsonl"))]
 na = json.load(open(os.path.join(ROOT, "tools", "not_applicable.json")))
 hooks = json.load(open(os.path.join(ROOT, "tools", "hooks.json")))
+REPO = os.environ.get("VERIF_REPO", "/repo")
+log = subprocess.run(["git", "-C", REPO, "log", "--reverse", "--format=%h %s"], stdout=subprocess.PIPE, text=True).stdout
+hooks["source_commits"] = [l.split()[0] for l in log.splitlines() if l.split(" ", 1)[1].startswith("verif:")]
+# KNOWN_FINDINGS.txt = header + known/*.txt fragments
+hdr = [l for l in open(os.path.join(ROOT, "KNOWN_FINDINGS.txt")) if l.startswith("#")]
+body = []
+for f in sorted(glob.glob(os.path.join(ROOT, "known", "C*.txt"))):
+    body += [l.rstrip("\n") + "\n" for l in open(f) if l.strip() and not l.startswith("#")]
+open(os.path.join(ROOT, "KNOWN_FINDINGS.txt"), "w").write("".join(hdr) + "".join(body))
 checks, napp = [], []
 for p in props:
     pid = p["id"]
